@@ -400,6 +400,8 @@ def run(ctx):
         'operators, in operand order',
         'both comparison-mnemonic tables agree',
         'every Operator member is handled by gen_binary_op/gen_unary_op',
+        'EXIT FOR / EXIT DO leave the innermost loop of their kind '
+        '(emission interpreter)',
     ]
     ctx.not_decided = [
         'behavioural equivalence of compiled programs (values, '
@@ -411,6 +413,8 @@ def run(ctx):
         'of 125 sample points (integers and floats)',
     ]
     chain_rules(ctx, 'C01')
+    from .. import gensim
+    gensim.check_exit_targets(ctx, 'C01')
     return ('Structural clause of C01: for each of the 21 Operator members '
             'the chain token -> Operator (binary/unary_op_from_token) -> '
             'mnemonic (gen_binary_op / gen_unary_op / '
